@@ -116,9 +116,9 @@ Definition body_curs (b : cbody) : list nat := match b with CStream _ fs _ => cu
 Lemma edit_curs bf sr : incl (body_curs (edit bf sr)) (curs (sr_frames sr)).
 Proof.
   destruct bf; cbn [edit body_curs]; try apply incl_refl; try (intros x Hx; destruct Hx).
-  - destruct (sr_frames sr) eqn:E; [intros x Hx; destruct Hx|]. cbn [body_curs]. apply curs_removelast.
   - apply curs_filter.
   - rewrite curs_strip. intros x Hx; destruct Hx.
+  - destruct (sr_frames sr) eqn:E; [intros x Hx; destruct Hx|]. cbn [body_curs]. apply curs_removelast.
 Qed.
 
 Lemma view_curs f sr eh b : post_view f sr = inr (eh, b) -> incl (body_curs b) (curs (sr_frames sr)).
@@ -748,9 +748,9 @@ Proof.
   cbn [net_eqb encf_eqb negb andb].
   destruct bf; cbn [edit] in Hp, Htl |- *; cbn in Hlo; try discriminate.
   - destruct (sr_ok sr); [|discriminate]. auto.
+  - cbn [tail_of] in Htl. congruence.
   - destruct (sr_frames sr); [discriminate|]. cbn [parse_stream] in Hp. destruct (sr_ok sr); [|discriminate].
     destruct (walk tid (removelast (f :: l0))) as [l1 [e1|p1]]; discriminate.
-  - cbn [tail_of] in Htl. congruence.
 Qed.
 
 Lemma post_ok_good fx tid i w init cur call cancel x w' pr eh b l p :
